@@ -237,14 +237,21 @@ def cfg_in_domain(cfg):
 
 def strict_dom(ts, cfg):
     """the quantifier's strict domain as a predicate on (graph, configuration)"""
-    if not cfg_in_domain(cfg):
+    return cfg_in_domain(cfg) and graph_in_domain(ts, cfg)
+
+
+def graph_in_domain(ts, cfg):
+    """the graph part; inverse neighbours are constrained whether or not inverse_paths is on (as Coq's strict_domb)"""
+    cfg = dict(cfg)
+    cfg["inverse_paths"] = True
+    if len(set(ts)) != len(ts):
         return False
     inst, rep = path_report(ts, cfg)
     classes = {c for cs in inst.values() for c in cs}
     if len({pipespec.shape_label(c) for c in classes}) != len(classes):
         return False                          # two classes behind one label
     for s, p, o in ts:
-        if p == cfg["tau"] and (o[0] != "I" or o[1] in inst or s[1] in classes):
+        if p == cfg["tau"] and (o[0] != "I" or o[1] in inst):
             return False                      # classes are IRIs and are not themselves instances
     for e in rep.values():
         if len(e["kinds"]) > 1:
@@ -338,6 +345,11 @@ def validator_table(doc, ts, typing):
     for kind, i, label in typing:
         t.append(["Y", kind, i, label])
     return t
+
+
+def unlabel(name):
+    """model shape name '%<iri>' -> iri"""
+    return name[2:-1] if name.startswith("%<") and name.endswith(">") else name
 
 
 def py_matches(v, ve, inst):
@@ -443,6 +455,36 @@ class Spec(pipeprops.PropSpec):
                 attribute(cls_of_pair[(i, label)], d, f[2], label,
                           "instance %s does not conform to %s: %s" % (i, label, reason), f[0],
                           f[4] if f[0] == "card" else None, int(f[5]) if f[0] == "card" else 0)
+            # (1b) premises of C03_conformance_partial evaluated by the extracted model on this input: the Coq
+            #      strict_domb must classify the graph as strict_dom here does, and inside the strict domain the
+            #      profile characterisation (premise P1, profile_exactb) must hold of the model's profile
+            if cfg_in_domain(cfg):
+                prem = pipeprops._mb().call("c03_premises", pipe.model_table(ts, cfg))
+                if prem[0][0] != "ok":
+                    raise RuntimeError("c03_premises answered %r" % (prem[:1],))
+                coq_dom, coq_exact = prem[0][1] == "1", prem[0][2] == "1"
+                nitems += 1
+                if coq_dom != graph_in_domain(ts, cfg):
+                    raise RuntimeError("Coq strict_domb = %s but the harness's strict domain predicate says %s" % (
+                        coq_dom, not coq_dom))
+                if coq_dom and not coq_exact:
+                    fails.append((None, "premise profile_exact (P1) of C03_conformance_partial does not hold of the "
+                                        "model's profile on this strict-domain input"))
+                # the schema the theorems speak about (SchemaOf.schema_of of the model's shapes) is the one parsed
+                # from the text
+                ms = pipeprops._mb().call("c03_model_schema", pipe.model_table(ts, cfg))
+                if ms[0][0] == "ok":
+                    mine = [r for r in validator_table(doc, [], []) if r[0] in ("S", "C")]
+                    theirs = [[f for f in r] for r in ms[1:]]
+                    for r in theirs:
+                        r[1] = unlabel(r[1])
+                        if r[0] == "C" and r[4] == "R":
+                            r[5] = unlabel(r[5])
+                        if r[0] == "C" and r[6] != "E":
+                            r[7] = "0"
+                    if [list(map(str, r)) for r in mine] != theirs:
+                        raise RuntimeError("schema_of(model shapes) differs from the schema parsed from the text: %r vs %r" % (
+                            [r for r in theirs if r not in mine][:2], [r for r in mine if r not in theirs][:2]))
             # (2) '?' only where no instance has two matching values (recount from the triples)
             nb = neighbours(ts, cfg["inverse_paths"])
             for sh in doc["shapes"]:
